@@ -165,6 +165,9 @@ type Hook func(c *Cluster, r *Request) *Action
 
 // Cluster is the fake cluster.
 type Cluster struct {
+	// ReversePartitionOrder: metadata responses list the partitions of a topic by decreasing id (set before use)
+	ReversePartitionOrder bool
+
 	Net *memnet.Network
 
 	mu         sync.Mutex
